@@ -278,14 +278,50 @@ def _matricize(case, ctx, shape):
         ctx.check(same(np.asarray(r3.value.toarray()), refM), "sptenmat.double", "WRONG", "sptenmat.double() differs")
     else:
         ctx.check(False, "sptenmat.double", "RAISE:" + type(r3.exc).__name__, f"{r3.exc} | {r3.tb}")
-    for src in ("ndarray", "coo"):
-        import scipy.sparse as sp
+    import scipy.sparse as sp
 
-        arrsrc = refM.copy() if src == "ndarray" else sp.coo_matrix(refM)
+    srng = np.random.default_rng(int(np.abs(refM).sum() * 1000) % (2 ** 31) + refM.size)
+
+    def _src(src):
+        # every way a caller can hold the same matrix: dense, the three scipy formats, and coordinate lists that are not canonical
+        # (shuffled, an entry split into several repeated coordinates that sum to it, an explicitly stored zero)
+        if src == "ndarray":
+            return refM.copy()
+        if src == "F-ndarray":
+            return np.asfortranarray(refM)
+        if src in ("csr", "csc"):
+            return getattr(sp, src + "_matrix")(refM)
+        coo = sp.coo_matrix(refM)
+        row, col, data = coo.row.copy(), coo.col.copy(), coo.data.copy()
+        if src == "coo-shuffled" and len(data):
+            pm = srng.permutation(len(data))
+            row, col, data = row[pm], col[pm], data[pm]
+        elif src == "coo-repeated" and len(data):
+            k = int(srng.integers(0, len(data)))
+            row, col = np.append(row, [row[k], row[k]]), np.append(col, [col[k], col[k]])
+            data = np.append(data, [0.25 * data[k], 0.5 * data[k]])
+            data[k] = 0.25 * data[k]
+            pm = srng.permutation(len(data))
+            row, col, data = row[pm], col[pm], data[pm]
+        elif src == "coo-explicit-zero":
+            zr = np.argwhere(refM == 0)
+            if len(zr):
+                z = zr[int(srng.integers(0, len(zr)))]
+                row, col, data = np.append(row, z[0]), np.append(col, z[1]), np.append(data, 0.0)
+        return sp.coo_matrix((data, (row, col)), shape=refM.shape)
+    made = {}
+    for src in ("ndarray", "F-ndarray", "coo", "csr", "csc", "coo-shuffled", "coo-repeated", "coo-explicit-zero"):
+        arrsrc = _src(src)
         r4 = ctx.call("sptenmat.from_array", ttb.sptenmat.from_array, arrsrc, np.array(r, dtype=int), np.array(c, dtype=int), shape)
         if r4.ok:
             ctx.structural(r4.value, "sptenmat.from_array", nozero=True)
             ctx.check(same(denote(r4.value), A) and r4.value.nnz == nnz, "sptenmat.from_array", "WRONG", f"from_array({src}) denotes another tensor", src=src)
+            made[src] = r4.value
+            if "coo" in made and src != "coo":
+                a_, b_ = made["coo"], r4.value
+                eqv = (np.array_equal(np.asarray(a_.subs).reshape(-1, 2), np.asarray(b_.subs).reshape(-1, 2)) and
+                       same(np.asarray(a_.vals, dtype=float).reshape(-1), np.asarray(b_.vals, dtype=float).reshape(-1)))
+                ctx.check(eqv, "sptenmat.from_array", "FORM-DEPENDENT", f"the same matrix given as {src} and as canonical coo gives differently stored sptenmats", src=src)
         else:
             ctx.check(False, "sptenmat.from_array", "RAISE:" + type(r4.exc).__name__, f"{r4.exc} | {r4.tb}", src=src)
     # sptenmat constructor from (row, col) coordinate list in shuffled order
